@@ -16,10 +16,16 @@ pub const NAMES: &[&str] = &["A", "android", "order", "nothing", "allow", "offli
 /// every way of writing the operand sequence `ops` (in order) with and/or between items,
 /// optional `not` / `not not` before items, and parenthesised sub-groups
 pub fn written(ops: &[String], top: bool) -> Vec<String> {
+    written_n(ops, top, false)
+}
+
+/// `stacked`: items may also carry two or three `not`s in a row (`not not X`, `not  not (..)`)
+pub fn written_n(ops: &[String], top: bool, stacked: bool) -> Vec<String> {
     let k = ops.len();
     let mut out = vec![];
+    let nots: &[&str] = if stacked { &["", "not ", "not not ", "not  not not "] } else { &["", "not "] };
     if k == 1 {
-        return vec![ops[0].clone(), format!("not {}", ops[0])];
+        return nots.iter().map(|n| format!("{}{}", n, ops[0])).collect();
     }
     // compositions of k into m >= 2 parts (m == 1 would be the bare group, produced by the caller)
     let mut comps: Vec<Vec<usize>> = vec![];
@@ -45,12 +51,13 @@ pub fn written(ops: &[String], top: bool) -> Vec<String> {
             let sub = &ops[at..at + s];
             at += s;
             if *s == 1 {
-                items.push(vec![sub[0].clone(), format!("not {}", sub[0])]);
+                items.push(nots.iter().map(|n| format!("{}{}", n, sub[0])).collect());
             } else {
                 let mut alts = vec![];
-                for w in written(sub, false) {
-                    alts.push(format!("({})", w));
-                    alts.push(format!("not ({})", w));
+                for w in written_n(sub, false, stacked) {
+                    for n in nots {
+                        alts.push(format!("{}({})", n, w));
+                    }
                 }
                 items.push(alts);
             }
@@ -389,7 +396,13 @@ pub fn run(ctx: &Ctx) -> i32 {
             let kinds = vec![OpKind::Ident; k];
             let asgs = all_assignments(k);
             let mut rng = Rng::new(ctx.seed, "C05x", wi as u64);
-            let conds = written(&names, true);
+            let mut conds = written(&names, true);
+            if k <= 3 {
+                // stacked negations (`not not X`, three in a row) for the short conditions
+                let extra = written_n(&names, true, true);
+                rep.add("stacked_negation_conditions", extra.len() as u64);
+                conds.extend(extra);
+            }
             rep.add("exhaustive_conditions", conds.len() as u64);
             for c in &conds {
                 if ctx.expired() {
@@ -452,7 +465,7 @@ pub fn run(ctx: &Ctx) -> i32 {
         ctx,
         rep,
         Meta {
-            rule: format!("complete enumeration of every way to write 1..{} operands with and/or, optional not before operands and groups, and every parenthesisation, over keyword-prefixed identifier names, x all 3^k assignments of true/false/missing; plus redundant-parenthesis and extra-space variants; plus random conditions with 2..8 operands of every operand kind (identifier, all(), of(), int/flt/str cast comparisons). Oracles: the harness's own precedence-climbing parser evaluated with the C06 tables (meaning), and node-for-node comparison with the engine's parsed Expression tree (structure / associativity). non-trivial = tree changes under a swapped and/or table or a loose not; distinct by token-kind sequence", max_k),
+            rule: format!("complete enumeration of every way to write 1..{} operands with and/or, optional not before operands and groups (up to three operands also two or three nots in a row), and every parenthesisation, over keyword-prefixed identifier names, x all 3^k assignments of true/false/missing; plus redundant-parenthesis and extra-space variants; plus random conditions with 2..8 operands of every operand kind (identifier, all(), of(), int/flt/str cast comparisons). Oracles: the harness's own precedence-climbing parser evaluated with the C06 tables (meaning), and node-for-node comparison with the engine's parsed Expression tree (structure / associativity). non-trivial = tree changes under a swapped and/or table or a loose not; distinct by token-kind sequence", max_k),
             exhaustive: true,
             assumptions: vec!["keywords are written with their trailing delimiter as the tokeniser documents; extra spaces are U+0020".into()],
             min_nontrivial: 30,
